@@ -26,6 +26,8 @@ import (
 	"sort"
 	"strconv"
 	"strings"
+	"sync"
+	"sync/atomic"
 	"testing"
 	"time"
 
@@ -300,7 +302,13 @@ func TestVerifC09(t *testing.T) {
 	}
 	w := bufio.NewWriterSize(of, 1<<20)
 	df := &differ{prev: map[int]gRec{}}
+	var emitMu sync.Mutex
+	var progress atomic.Int64 // unix nanoseconds of the last finished execution
+	progress.Store(time.Now().UnixNano())
 	emit := func(e event) {
+		emitMu.Lock()
+		defer emitMu.Unlock()
+		progress.Store(time.Now().UnixNano())
 		e.Add, e.Del = df.delta(snapshot())
 		if e.Marks == nil {
 			e.Marks = []string{}
@@ -325,8 +333,29 @@ func TestVerifC09(t *testing.T) {
 	cp.take()
 	quiesce(300*time.Millisecond, 10*time.Second)
 
+	// resource guard, not a verdict: an execution that does not return within the limit ends the process; what was recorded
+	// so far is complete (a last profile is added) and is judged like any other log, marked truncated.  The guard's own
+	// goroutine exists before the Base event.
+	limit := time.Duration(envInt("VERIF_EXEC_LIMIT_S", 600)) * time.Second
+	armed := make(chan struct{})
+	go func() {
+		<-armed
+		for {
+			time.Sleep(500 * time.Millisecond)
+			if time.Since(time.Unix(0, progress.Load())) > limit {
+				emit(event{Ev: "Final", N: runtime.NumGoroutine(), Trunc: true, Err: "an execution did not return within the limit"})
+				of.Sync()
+				_ = os.Rename(outp+".tmp", outp)
+				fmt.Fprintf(realOut, "c09 harness: execution limit exceeded, process ended\n")
+				os.Exit(3)
+			}
+		}
+	}()
+	runtime.Gosched()
+
 	me := selfID()
 	emit(event{Ev: "Base", Driver: me, N: runtime.NumGoroutine()})
+	close(armed)
 
 	perExec := time.Duration(envInt("VERIF_SETTLE_MS", 60)) * time.Millisecond
 	finalEvery := envInt("VERIF_FINAL_EVERY", 150)
